@@ -1030,23 +1030,29 @@ theorem eraseCore_name {nt r : ITier Int} {ml : List (Iv Int)} {a b : Int} {mode
 theorem ITier.eraseRegion_name {t t' : ITier Int} {a b : Int} {m : EraseMode} {sh : Bool}
     (h : t.eraseRegion a b m sh = .ok t') : t'.name = t.name := by
   unfold ITier.eraseRegion at h
-  simp only [bind, Except.bind, pure, Except.pure] at h
-  repeat' split at h
-  all_goals first
-    | (cases h; done)
-    | (rename_i hn _ _ hc _; rw [shrinkStep] at h
-       rw [ITier.new_name h, eraseCore_name hc, ITier.new_name hn]; rfl)
-    | (rename_i hn _ _ hc _; cases h; rw [eraseCore_name hc, ITier.new_name hn]; rfl)
+  obtain ⟨mt, _, h⟩ := bind_ok h
+  obtain ⟨nt, hn, h⟩ := bind_ok h
+  dsimp only at h
+  split at h
+  · have := pure_ok h; subst this; rw [ITier.new_name hn]; rfl
+  · obtain ⟨nt1, hc, h⟩ := bind_ok h
+    split at h
+    · rw [shrinkStep] at h
+      rw [ITier.new_name h, eraseCore_name hc, ITier.new_name hn]; rfl
+    · have := pure_ok h; subst this; rw [eraseCore_name hc, ITier.new_name hn]; rfl
 
 theorem PTier.eraseRegion_name {t t' : PTier Int} {a b : Int} {sh : Bool}
     (h : t.eraseRegion a b sh = .ok t') : t'.name = t.name := by
   unfold PTier.eraseRegion at h
-  simp only [bind, Except.bind, pure, Except.pure] at h
-  repeat' split at h
-  all_goals first
-    | (cases h; done)
-    | (rename_i hn _ _ _ _ _ _ _; rw [PTier.new_name h]; exact PTier.new_name hn)
-    | (rename_i hn _ _ _ _ _ _ _; cases h; exact PTier.new_name hn)
+  obtain ⟨nt, hn, h⟩ := bind_ok h
+  obtain ⟨ct, _, h⟩ := bind_ok h
+  dsimp only at h
+  split at h
+  · have := pure_ok h; subst this; rw [PTier.new_name hn]; rfl
+  · obtain ⟨ps0, _, h⟩ := bind_ok h
+    split at h
+    · rw [PTier.new_name h]; rw [PTier.new_name hn]; rfl
+    · have := pure_ok h; subst this; rw [PTier.new_name hn]; rfl
 
 theorem ITier.insertSpace_name {t t' : ITier Int} {s d : Int} {m : SpaceMode}
     (h : t.insertSpace s d m = .ok t') : t'.name = t.name := by
@@ -1232,7 +1238,7 @@ theorem crop_tiers {g g' : Tg Int} {a b : Int} {m : CropMode} {r : Bool} (h : g.
 
 theorem eraseRegion_tiers {g g' : Tg Int} {a b : Int} {sh : Bool} (h : g.eraseRegion a b sh = .ok g') :
     ∃ ts, g.tiers.mapM (·.eraseRegion a b .truncate sh) = .ok ts ∧ g'.tiers = ts ∧
-      g'.hi = (if sh then g.hi.map (shiftBack a b) else g.hi) := by
+      g'.hi = Tg.eraseHi g.lo g.hi a b sh := by
   unfold Tg.eraseRegion at h
   split at h
   · cases h
@@ -1313,7 +1319,7 @@ theorem tgop_ok (g : Tg Int) (hnd : g.names.Nodup) (ts : List (AnyTier Int)) :
   · intro a b sh hab hm
     obtain ⟨g1, hg1⟩ := foldlM_addTier_ok (·.eraseRegion a b .truncate sh) .warning (by simp)
       (fun _ _ h => (AnyTier.eraseRegion_name h).1) _ ts _ (hnd' g.lo g.hi) hm
-    have : g.eraseRegion a b sh = .ok { g1 with hi := if sh then g.hi.map (shiftBack a b) else g.hi } := by
+    have : g.eraseRegion a b sh = .ok { g1 with hi := Tg.eraseHi g.lo g.hi a b sh } := by
       unfold Tg.eraseRegion; rw [if_neg (by omega)]
       simp only [bind, Except.bind] at hg1 ⊢
       rw [hg1]; rfl
